@@ -51,6 +51,10 @@ def isInvocation : Expr → Bool
   | .call .func _ _ _ | .call .bridge _ _ _ | .call .classop _ _ _ | .icall _ _ _ => true
   | _ => false
 
+def wfTo : EvtTo → Bool
+  | .cls _ | .creator _ => true
+  | .inst h => isVarOrSelf h
+
 mutual
   def wfStmt (ctx : Ctx) : Stmt → Bool
     | .assign l r => wfExpr ctx l && wfExpr ctx r
@@ -67,6 +71,10 @@ mutual
     | .while_ e b => wfExpr ctx e && wfBlock ctx b
     | .if_ e b elifs els => wfExpr ctx e && wfBlock ctx b && wfElifs ctx elifs && wfElse ctx els
     | .invoke e => isInvocation e && wfExpr ctx e
+    | .genEvt _ m d to => m.isSome && wfParams ctx d && wfTo to
+    | .createEvt _ _ m d to => m.isSome && wfParams ctx d && wfTo to
+    | .genPre (.var _) => true          -- `generate <event variable>`
+    | .genPre _ => false
   def wfBlock (ctx : Ctx) : Block → Bool
     | .nil => true
     | .cons s rest => wfStmt ctx s && wfBlock ctx rest
